@@ -141,6 +141,7 @@ class Filer(hioing.Mixin):
         self.headDirPath = headDirPath if headDirPath is not None else self.HeadDirPath
         self.perm = perm if perm is not None else self.Perm
         self.path = None
+        self._tempDirPath = None  # temp directory made by remake when temp
         self.filed = True if filed else False
         self.extensioned = True if extensioned else False
         self.mode = mode if mode is not None else self.Mode
@@ -296,6 +297,7 @@ class Filer(hioing.Mixin):
             headDirPath = tempfile.mkdtemp(prefix=self.TempPrefix,
                                            suffix=self.TempSuffix,
                                            dir=self.TempHeadDir)
+            self._tempDirPath = headDirPath  # so clear can remove it
 
             path = os.path.abspath(
                                 os.path.join(headDirPath,
@@ -304,6 +306,7 @@ class Filer(hioing.Mixin):
                                              name))
             if not self._within(path, headDirPath):
                 shutil.rmtree(headDirPath)  # unused temp directory
+                self._tempDirPath = None
                 raise hioing.FilerError(f"Path from {base=} {name=} not in "
                                         f"its temp directory.")
 
@@ -542,6 +545,12 @@ class Filer(hioing.Mixin):
 
             else:
                 shutil.rmtree(self.path)  # remove trailing dir of path (and all below)
+
+        tempDirPath = getattr(self, "_tempDirPath", None)
+        if self.temp and tempDirPath:  # remove temp directory made for .path
+            if os.path.exists(tempDirPath):
+                shutil.rmtree(tempDirPath)
+            self._tempDirPath = None
 
 
 
